@@ -7,9 +7,6 @@ package include
 
 //@ pure (*Loader).getLimits IsGlobPattern
 
-//@ trusted Parse
-//@   ensures result0 != nil && fresh(result0)
-
 //@ trusted ResolvePathSafe
 //@   effects none
 
